@@ -614,7 +614,8 @@ def _own_failures(case):
     cell, tbits, trefs = build(case)
     label = ctor_label(v)
     trace = []
-    s = traced(lib_from_rcell(cell).begin_parse(), trace)
+    lc = lib_from_rcell(cell)
+    s = traced(lc.begin_parse(), trace)
     ok, obj = call(_lib(name), s)
     fails = []
     if not ok:
@@ -639,6 +640,18 @@ def _own_failures(case):
             fails.append(Fail(f'{tn}/consumed-too-much/{label}', f'{len(trefs) - len(rr)} references of the tail were consumed'))
         elif [c.repr_hash() for c in rr] != [c.repr_hash() for c in trefs]:
             fails.append(Fail(f'{tn}/remaining-refs-differ/{label}', 'the references left are not the tail references'))
+    if not fails and ok:
+        # a second parse of the SAME cell object: same result, and parsing left the cell itself untouched
+        okb, objb = call(_lib(name), lc.begin_parse())
+        if not okb:
+            fails.append(Fail(f'{tn}/{label}/second-parse-of-the-same-cell/raises/{exc_sig(objb)}', repr(objb)))
+        else:
+            gotb = conv(t, R.strip_either(v), objb, R.Ctx())
+            if field_failures(tn, R.strip_either(v), gotb):
+                fails.append(Fail(f'{tn}/{label}/second-parse-of-the-same-cell/differs', tn))
+            elif lc.bits.to01() != cell.bits or R.rcell_of(lc).repr_hash() != cell.repr_hash():
+                fails.append(Fail(f'{tn}/{label}/parsing-changed-the-cell', tn))
+        return fails
     if fails and any(not f.signature.endswith('/unsigned-read-signed') for f in fails):
         # name the root cause: a parser that lost the framing of the value raises, mis-reads later fields or leaves a wrong
         # remainder depending on the bits it happens to hit - all of these are ONE failure, named after the place where it
